@@ -42,6 +42,8 @@ func NewCollector() *Collector {
 // Add records an obligation. Obligations with the same rule/key are merged:
 // the worst verdict wins and details are concatenated.
 func (c *Collector) Add(rule, key string, v Verdict, where, detail string, props ...string) {
+	// keys appear as one whitespace-free token in known_findings.txt
+	key = strings.ReplaceAll(strings.ReplaceAll(key, ", ", ","), " ", "_")
 	id := rule + "/" + key
 	if i, ok := c.seen[id]; ok {
 		o := &c.Obls[i]
